@@ -232,6 +232,9 @@ def impl(line: str) -> str:
             return "err " + kind(e)
     if op == "bip32.root":
         return _x(lambda: bip32.rootxprv_from_seed_(unhx(t[1]), unhx(t[2])))
+    if op == "bip32.rootm":
+        with mac(t[1]):
+            return _x(lambda: bip32.rootxprv_from_seed_(unhx(t[2]), unhx(t[3])))
     if op == "bip32.crack":
         with mac(t[1]):
             return _x(lambda: BIP32KeyData.b58decode(bip32.crack_prv_key_var(xof(t[2:8]), xof(t[8:14]))))
@@ -754,6 +757,19 @@ def _o_tweaks_invalid_child(w):
     return False, f"answered {len(r)} tweaks"
 
 
+def _o_root_invalid(w):
+    """rootxprv_from_seed with HMAC-SHA512("Bitcoin seed", seed) forced to a left half of zero / >= n: refused with the
+    library's error — no master key is answered."""
+    with mac(w["mac"]):
+        try:
+            r = bip32.rootxprv_from_seed(bytes.fromhex(w["seed"]))
+        except BTClibValueError as e:
+            return True, str(e)[:60]
+        except Exception as e:  # noqa: BLE001
+            return False, f"foreign {type(e).__name__}: {e}"
+    return False, f"answered {r[:20]}"
+
+
 def _o_tweaks(w):
     """pub_key_derivation_tweaks: parent point + (sum of tweaks)·G is the derived public key; each tweak is the
     step's own HMAC left half; a hardened index is refused."""
@@ -780,7 +796,7 @@ def _o_tweaks(w):
 
 
 ORACLES = {
-    "tweaks.sum": _o_tweaks, "refuse.tweaks-invalid-child": _o_tweaks_invalid_child, "refuse.hardened-boundary": _o_boundary, "bip85.leading-zero": _o_bip85_leading_zero,
+    "tweaks.sum": _o_tweaks, "refuse.root-invalid-left-half": _o_root_invalid, "refuse.tweaks-invalid-child": _o_tweaks_invalid_child, "refuse.hardened-boundary": _o_boundary, "bip85.leading-zero": _o_bip85_leading_zero,
     "law.split": _o_split, "law.neuter": _o_neuter, "law.crack": _o_crack,
     "refuse.hardened-pub": _o_hardened_pub, "refuse.depth": _o_depth, "refuse.invalid-child": _o_invalid_child,
     "vectors.bip32": _o_vectors, "path.roundtrip": _o_path_roundtrip, "version.pairing": _o_version_pairing,
@@ -892,6 +908,16 @@ def run(ctx):
                 common.rand_bytes(rng, rng.choice([4, 3, 5]))
             lines.append(f"bip32.root {hx(seed)} {hx(v)}")
         ctx.stream("bip32.root", lines)
+        # the HMAC forced (keyed by the seed's last four bytes, on both sides): I_L zero / n / above n refused, n - 1 and 1 answered
+        fl = []
+        for _ in range(ctx.n(40, 400)):
+            seed = rand_seed(rng)
+            il = rng.choice([0, N, N + 1, 2**256 - 1, N - 1, 1, rng.randrange(1, N)])
+            tok = f"{int.from_bytes(seed[-4:], 'big')}:{(il.to_bytes(32, 'big') + common.rand_bytes(rng, 32)).hex()}"
+            fl.append(f"bip32.rootm {tok} {hx(seed)} {hx(rng.choice(PRV_VERSIONS))}")
+            if il == 0 or il >= N:
+                ctx.check("refuse.root-invalid-left-half", {"seed": seed.hex(), "mac": tok})
+        ctx.stream("bip32.root-forced", fl)
 
 
     def s04_derive_public():  # derive: public entry point (object / text / bytes spellings), all fields compared
